@@ -24,7 +24,41 @@ func init() { registry["C18"] = genC18 }
 
 var safeStrings18 = []string{"x", "/dev/x", "/usr/bin/hook", "value", "a-b_c.d", "0", "ro", "bind", "L3:0=ffff", "MB:0=50", "/a/b/c", "A", "é", "x y", "1.5", "true"}
 
-func randStr18(r *hx.R) string { return hx.Pick(r, safeStrings18) }
+// strings no rule of the library restricts in the free-form positions, which a stricter schema (a pattern, an enumeration, a
+// length bound, a format) or an unquoted YAML spelling would trip over
+var oddStrings18 = []string{"", " ", "  lead", "trail ", "UPPER", "0x1F", "1e3", "12:30", "2001-12-14", "null", "~", "yes", "no", "-", "--", ".", "..", "a\nb", "tab\there",
+	"relative/path", "./x", "../x", "//", "C:\\dir", "日本語", "\U0001F600", "a=b", "k: v", "# c", "[x]", "{x}", "'q'", "\"q\"", "%41", "a+b", "a#b", "a?b", "*", "&a", "!t", "|", ">",
+	"@x", "`x`", strings.Repeat("long", 70), strings.Repeat("/very/long/path", 40)}
+
+// wide18 is set while the C18 generator runs: C17 borrows randLibValidSpec for its valid documents and keeps the plain strings and short lists
+var wide18 bool
+
+func randStr18(r *hx.R) string {
+	if wide18 && r.Chance(0.3) {
+		return hx.Pick(r, oddStrings18)
+	}
+	return hx.Pick(r, safeStrings18)
+}
+
+// nonEmpty18: a string for a position the library wants non-empty
+func nonEmpty18(r *hx.R, usual []string) string {
+	if !wide18 || r.Chance(0.7) {
+		return hx.Pick(r, usual)
+	}
+	for {
+		if x := hx.Pick(r, oddStrings18); x != "" {
+			return x
+		}
+	}
+}
+
+// listLen18: mostly 0..2, now and then up to 6 (a bound on the number of items shows only then)
+func listLen18(r *hx.R) int {
+	if wide18 && r.Chance(0.1) {
+		return 3 + r.Intn(4)
+	}
+	return r.Intn(3)
+}
 
 func extremeI64(r *hx.R) int64 {
 	return hx.Pick(r, []int64{math.MinInt64, math.MinInt64 + 1, -1, 0, 1, 255, math.MaxInt32, math.MaxUint32, math.MaxUint32 + 1,
@@ -36,10 +70,20 @@ func extremeU32(r *hx.R) uint32 {
 }
 
 func randEnv18(r *hx.R) []string {
-	n := r.Intn(3)
+	n := listLen18(r)
 	var out []string
 	for i := 0; i < n; i++ {
+		if wide18 && r.Chance(0.25) {
+			out = append(out, nonEmpty18(r, []string{"N"})+"="+randStr18(r))
+			if strings.HasPrefix(out[len(out)-1], "=") {
+				out[len(out)-1] = "E" + out[len(out)-1]
+			}
+			continue
+		}
 		out = append(out, hx.Pick(r, []string{"A=b", "PATH=/bin:/usr/bin", "X=", "K=v=w", "é=1", "A_B=c d"}))
+	}
+	if wide18 && len(out) > 0 && r.Chance(0.2) { // the same entry twice
+		out = append(out, out[0])
 	}
 	return out
 }
@@ -50,7 +94,8 @@ func randAnnots18(r *hx.R) map[string]string {
 	}
 	m := map[string]string{}
 	for i := r.Intn(3) + 1; i > 0; i-- {
-		m[hx.Pick(r, []string{"vendor.com/note", "plain", "a.b/c", "x_y-z.w", "K8S.io/Name", "UPPER", "n0", "example.com/" + strings.Repeat("n", 63)})] = randStr18(r)
+		m[hx.Pick(r, []string{"vendor.com/note", "plain", "a.b/c", "x_y-z.w", "K8S.io/Name", "UPPER", "n0", "example.com/" + strings.Repeat("n", 63),
+			"0", "1e3", "true", "null", "y", "0x1F", "12-30", "a", "Z", strings.Repeat("p", 63) + "." + strings.Repeat("q", 63) + "/" + strings.Repeat("N", 63)})] = randStr18(r)
 	}
 	return m
 }
@@ -70,10 +115,13 @@ func randEdits18(r *hx.R, extremes bool, nonEmpty bool) specs.ContainerEdits {
 		return uint32(r.Intn(70000))
 	}
 	e.Env = randEnv18(r)
-	for i := r.Intn(3); i > 0; i-- {
-		dn := &specs.DeviceNode{Path: hx.Pick(r, []string{"/dev/x", "/dev/y", "x", "/dev/é"})}
+	for i := listLen18(r); i > 0; i-- {
+		dn := &specs.DeviceNode{Path: nonEmpty18(r, []string{"/dev/x", "/dev/y", "x", "/dev/é"})}
 		if r.Chance(0.5) {
 			dn.HostPath = "/dev/host"
+			if wide18 && r.Chance(0.3) {
+				dn.HostPath = randStr18(r)
+			}
 		}
 		dn.Type = hx.Pick(r, []string{"", "b", "c", "u", "p"})
 		if r.Chance(0.7) {
@@ -82,7 +130,7 @@ func randEdits18(r *hx.R, extremes bool, nonEmpty bool) specs.ContainerEdits {
 		if r.Chance(0.5) {
 			dn.FileMode = fmp(os.FileMode(u32()))
 		}
-		dn.Permissions = hx.Pick(r, []string{"", "r", "rw", "rwm", "mrw", "rr"})
+		dn.Permissions = hx.Pick(r, []string{"", "r", "rw", "rwm", "mrw", "rr", "w", "m", "rwmr", "mmmmmmmm", "wr"})
 		if r.Chance(0.5) {
 			dn.UID = u32p(u32())
 		}
@@ -91,46 +139,58 @@ func randEdits18(r *hx.R, extremes bool, nonEmpty bool) specs.ContainerEdits {
 		}
 		e.DeviceNodes = append(e.DeviceNodes, dn)
 	}
-	for i := r.Intn(3); i > 0; i-- {
+	if wide18 && len(e.DeviceNodes) > 0 && r.Chance(0.15) { // the same node twice (equal values, and the same pointer)
+		cp := *e.DeviceNodes[0]
+		e.DeviceNodes = append(e.DeviceNodes, &cp, e.DeviceNodes[0])
+	}
+	for i := listLen18(r); i > 0; i-- {
 		h := &specs.Hook{HookName: hx.Pick(r, []string{"prestart", "createRuntime", "createContainer", "startContainer", "poststart", "poststop"}),
-			Path: hx.Pick(r, []string{"/bin/hook", "hook", "/usr/bin/é"})}
-		for j := r.Intn(3); j > 0; j-- {
-			h.Args = append(h.Args, hx.Pick(r, []string{"hook", "--flag", "", "a b"}))
+			Path: nonEmpty18(r, []string{"/bin/hook", "hook", "/usr/bin/é"})}
+		for j := listLen18(r); j > 0; j-- {
+			h.Args = append(h.Args, hx.Pick(r, []string{"hook", "--flag", "", "a b", "hook", randStr18(r)}))
 		}
 		h.Env = randEnv18(r)
 		if r.Chance(0.6) {
 			if extremes {
-				h.Timeout = intp(hx.Pick(r, []int{0, 1, 30, math.MaxInt32, math.MaxUint32 - 1, math.MaxUint32}))
+				h.Timeout = intp(hx.Pick(r, []int{0, 1, 30, math.MaxInt32, math.MaxInt32 + 1, math.MaxUint32 - 1, math.MaxUint32}))
 			} else {
 				h.Timeout = intp(r.Intn(100))
 			}
 		}
 		e.Hooks = append(e.Hooks, h)
 	}
-	for i := r.Intn(3); i > 0; i-- {
-		m := &specs.Mount{HostPath: hx.Pick(r, []string{"/host", "/h/é", "h"}), ContainerPath: hx.Pick(r, []string{"/ctr", "/c/d", "c"})}
-		for j := r.Intn(3); j > 0; j-- {
-			m.Options = append(m.Options, hx.Pick(r, []string{"ro", "rbind", "nosuid", ""}))
+	if wide18 && len(e.Hooks) > 0 && r.Chance(0.15) {
+		cp := *e.Hooks[0]
+		e.Hooks = append(e.Hooks, &cp)
+	}
+	for i := listLen18(r); i > 0; i-- {
+		m := &specs.Mount{HostPath: nonEmpty18(r, []string{"/host", "/h/é", "h"}), ContainerPath: nonEmpty18(r, []string{"/ctr", "/c/d", "c"})}
+		for j := listLen18(r); j > 0; j-- {
+			m.Options = append(m.Options, hx.Pick(r, []string{"ro", "rbind", "nosuid", "", "ro", randStr18(r)}))
 		}
 		if r.Chance(0.5) {
-			m.Type = hx.Pick(r, []string{"bind", "tmpfs"})
+			m.Type = hx.Pick(r, []string{"bind", "tmpfs", "none", "Bind", randStr18(r)})
 		}
 		e.Mounts = append(e.Mounts, m)
+	}
+	if wide18 && len(e.Mounts) > 0 && r.Chance(0.15) {
+		cp := *e.Mounts[0]
+		e.Mounts = append(e.Mounts, &cp)
 	}
 	if r.Chance(0.3) {
 		e.IntelRdt = &specs.IntelRdt{}
 		if r.Chance(0.7) {
-			e.IntelRdt.ClosID = hx.Pick(r, []string{"clos", "a.b", "x-1"})
+			e.IntelRdt.ClosID = hx.Pick(r, []string{"clos", "a.b", "x-1", "...", " ", "C L O S", "0", "true", "日本", strings.Repeat("c", 4095)})
 		}
 		if r.Chance(0.5) {
-			e.IntelRdt.L3CacheSchema = "L3:0=ffff"
+			e.IntelRdt.L3CacheSchema = hx.Pick(r, []string{"L3:0=ffff", "L3:0=ffff", randStr18(r)})
 		}
 		if r.Chance(0.5) {
-			e.IntelRdt.MemBwSchema = "MB:0=50"
+			e.IntelRdt.MemBwSchema = hx.Pick(r, []string{"MB:0=50", "MB:0=50", randStr18(r)})
 		}
 		e.IntelRdt.EnableCMT, e.IntelRdt.EnableMBM = r.Chance(0.5), r.Chance(0.5)
 	}
-	for i := r.Intn(3); i > 0; i-- {
+	for i := listLen18(r); i > 0; i-- {
 		e.AdditionalGIDs = append(e.AdditionalGIDs, u32())
 	}
 	if nonEmpty && len(e.Env) == 0 && len(e.DeviceNodes) == 0 && len(e.Hooks) == 0 && len(e.Mounts) == 0 && e.IntelRdt == nil && len(e.AdditionalGIDs) == 0 {
@@ -142,15 +202,27 @@ func randEdits18(r *hx.R, extremes bool, nonEmpty bool) specs.ContainerEdits {
 // randLibValidSpec generates a Spec the library accepts; with extremes the integer fields take boundary values of their Go types
 // (hook timeouts stay within 0..2^32-1, the proviso of C18).
 func randLibValidSpec(r *hx.R, extremes bool) *specs.Spec {
-	s := &specs.Spec{Version: specs.CurrentVersion, Kind: hx.Pick(r, []string{"vendor.com/class", "v.io/c", "example.org/gpu-device", "a1.b2/c_d"})}
+	s := &specs.Spec{Version: specs.CurrentVersion, Kind: hx.Pick(r, []string{"vendor.com/class", "v.io/c", "example.org/gpu-device", "a1.b2/c_d",
+		"v/c", "V/C", "Vendor.COM/Class", "a-b_c.d/e-f_g.h", "x0/y1", "yes/no", "e1/e3"})}
 	s.Annotations = randAnnots18(r)
 	n := 1 + r.Intn(3)
+	if wide18 && r.Chance(0.05) {
+		n = 4 + r.Intn(6)
+	}
 	for i := 0; i < n; i++ {
-		s.Devices = append(s.Devices, specs.Device{Name: fmt.Sprintf("%s%d", hx.Pick(r, []string{"dev", "gpu", "0", "a.b:c-"}), i),
+		// names: also spellings a YAML reader takes for numbers when they are not quoted (1e0, 0x1, 12:30, 00)
+		s.Devices = append(s.Devices, specs.Device{Name: fmt.Sprintf("%s%d", hx.Pick(r, []string{"dev", "gpu", "0", "a.b:c-", "GPU", "1e", "0x", "12:3", "1_", "y", "a_b-"}), i),
 			Annotations: randAnnots18(r), ContainerEdits: randEdits18(r, extremes, true)})
 	}
 	if r.Chance(0.6) {
 		s.ContainerEdits = randEdits18(r, extremes, false)
+	}
+	// any released version from the one the features used require upward, with or without the leading v
+	if v, err := specs.MinimumRequiredVersion(s); wide18 && err == nil && r.Chance(0.6) {
+		s.Version = hx.Pick(r, atLeast05(v))
+		if r.Chance(0.3) {
+			s.Version = "v" + s.Version
+		}
 	}
 	return s
 }
@@ -256,7 +328,7 @@ func genC18(r *hx.R, tier string, scratch string) (*hx.Suite, error) {
 		Imports:  []string{"Base", "SpecModel", "Doc", "Schema", "SchemaInst", "Judge18"},
 		CaseType: "case18",
 		Judge:    "judge18",
-		Shard:    100,
+		Shard:    40,
 		Rule: "random library-valid Specs (1-3 devices; every optional member present or absent; annotations; env, device nodes, hooks, mounts, intelRdt, " +
 			"additionalGids at device and Spec level), half of them with the boundary values of every integer field (major/minor at the int64 extremes and around " +
 			"2^53, fileMode/uid/gid/additionalGids at the uint32 extremes, hook timeouts at 0 and 2^32-1), through BuiltinSchema().Validate, Cache.WriteSpec and " +
@@ -265,6 +337,8 @@ func genC18(r *hx.R, tier string, scratch string) (*hx.Suite, error) {
 			"(no devices, null list entries, empty device edits), for the correspondence. Non-trivial: the Spec has a member beyond the required ones.",
 	}
 	defer cdi.SetSpecValidator(nil)
+	wide18 = true
+	defer func() { wide18 = false }()
 	n := 0
 	add := func(sp *specs.Spec, class string, nontrivial bool) {
 		n++
